@@ -109,15 +109,19 @@ def load_result(ctx, path):
     return r
 
 
-_tlc_counter = [0]
+import itertools
+import threading
+_tlc_counter = itertools.count(1)
+_tlc_lock = threading.Lock()
 
 
 def run_tlc(ctx, module, cfg, mode="bfs", workers=8, timeout=900, simulate=None, depth=None, extra_files=None,
             heap="6g", coverage=False, seed=None, defines=None, dfs=False):
     """Run TLC on a scratch copy of the spec directory. Returns a stats dict.
     simulate: "num=N" string for -simulate. extra_files: {name: path} copied in."""
-    _tlc_counter[0] += 1
-    d = ctx.sub("tlc%d" % _tlc_counter[0])
+    with _tlc_lock:
+        n = next(_tlc_counter)
+    d = ctx.sub("tlc%d" % n)
     for f in os.listdir(SPEC):
         if f.endswith(".tla") or f.endswith(".cfg"):
             shutil.copyfile(os.path.join(SPEC, f), os.path.join(d, f))
